@@ -263,6 +263,7 @@ func infiniteTransferBuffer(q *tq.TransferQueue, available chan<- *tq.Transfer) 
 	// Stream results from q.Watch() into chan "available" via an infinite
 	// buffer.
 
+	verifhook.Yield("filter.buffer-start", q)
 	watch := q.Watch()
 
 	// pending is used to keep track of an ordered list of available
